@@ -569,7 +569,17 @@ func checkConnectors(c *fw.Ctx) {
 	ownerOf := func(name string) string {
 		var start *ssa.Function
 		for _, f := range c.P.SrcFuncs() {
-			if f.Pkg != nil && f.Pkg.Pkg.Path() == fw.ModPath+"/fclient" && f.Name() == name && f.Signature.Recv() == nil && f.Parent() == nil {
+			if f.Pkg != nil && f.Pkg.Pkg.Path() == fw.ModPath+"/fclient" && f.Name() == name && f.Parent() == nil {
+				// a plain function, or a method of an unexported type (a phase of a request object)
+				if rv := f.Signature.Recv(); rv != nil {
+					rt := rv.Type()
+					if pt, isP := rt.(*types.Pointer); isP {
+						rt = pt.Elem()
+					}
+					if nt, isN := rt.(*types.Named); !isN || nt.Obj().Exported() {
+						continue
+					}
+				}
 				start = f
 			}
 		}
@@ -655,7 +665,13 @@ func checkConnectors(c *fw.Ctx) {
 					// the unrestricted dialer is permitted only on the branch where no list is configured
 					c.Ok(rule, construct+" (no lists configured)", s.pos, "plain dialer on the empty-lists branch (checked below)")
 				} else {
-					c.Check(strings.HasPrefix(ctl, "allowDenyNetworksControl("), rule, construct+" carries the network control", s.pos, ctl, "ControlContext = "+ctl)
+					if !strings.HasPrefix(ctl, "allowDenyNetworksControl(") && ctl != "" && ctl != "nil" && strings.Contains(ctl, "(") {
+						// a control function made by another routine (a method of a policy object): it is
+						// set, what it does is not read here
+						c.Undecided(rule, construct+" carries the network control", "ControlContext = "+ctl+" ("+s.pos+")")
+					} else {
+						c.Check(strings.HasPrefix(ctl, "allowDenyNetworksControl("), rule, construct+" carries the network control", s.pos, ctl, "ControlContext = "+ctl)
+					}
 				}
 			case "NewDNSCache":
 				c.Check(has && strings.HasPrefix(ctl, "allowDenyNetworksControl("), rule, construct+" carries the network control", s.pos, ctl, "the DNS cache dials without the allow/deny control")
@@ -992,6 +1008,12 @@ func checkPortParse(c *fw.Ctx, rule string) {
 	// invalid names (ports) - shared with C17.4
 	if fn := mustFunc(c, rule, "spec.splitServerName"); fn != nil {
 		ok := false
+		// no strconv call in the routine or the helpers it enters: the digits are parsed by something
+		// the rule does not see (a function variable, an injected parser) - nothing to judge
+		if len(deepCallsTo(fn, func(n string) bool { return strings.HasPrefix(n, "strconv.") })) == 0 {
+			c.Undecided(rule, "server-name ports are unsigned 16-bit decimals (others make the name invalid)", "no strconv call in splitServerName and its helpers: the port is parsed by a routine the rule does not see")
+			return
+		}
 		for _, call := range fw.CallsTo(fn, false, func(n string) bool { return strings.HasPrefix(n, "strconv.") }) {
 			if fw.CalleeName(call) == "strconv.ParseUint" && len(call.Common().Args) == 3 {
 				b, _ := fw.ConstInt(call.Common().Args[1])
